@@ -61,7 +61,7 @@ def _case(rng, lumped, alpha_kind=None):
 
 
 def gen(rng, tier):
-    n = 350 if tier == 'quick' else 8000
+    n = G.budget(350) if tier == 'quick' else 8000
     for _ in range(n):
         lumped = rng.random() < 0.4
         case = _case(rng, lumped)
